@@ -1,4 +1,4 @@
-// VF-BUILD: tbb
+// VF-BUILD: tbb access
 // C12 - concurrent unordered / ordered associative containers never lose or duplicate keys.
 // -p kind=umap|uset|ummap|umset|omap|oset|ommap|omset|cmap (cmap = the real tbb::concurrent_map with its own generator)
 // -p hash=id|const  -p pre=N (keys 100..100+N-1)  -p prekeys="3,5"  -p lv=0120 (skip-list levels, one digit per created node)
@@ -28,6 +28,8 @@ template <class C> bool do_insert(C& c, int k, int tag, std::true_type) { return
 template <class C> bool do_insert(C& c, int k, int, std::false_type) { return succ(c.insert(k)); }
 template <class C> bool do_emplace(C& c, int k, int tag, std::true_type) { return succ(c.emplace(k, tag)); }
 template <class C> bool do_emplace(C& c, int k, int, std::false_type) { return succ(c.emplace(k)); }
+template <class R> auto succ_nh(const R& r) -> decltype(r.inserted) { return r.inserted; }   // insert_return_type of unique containers
+template <class It> bool succ_nh(const It&, ...) { return true; }
 enum { K_INS, K_FIND, K_COUNT };
 static const char* const NAMES[] = {"insert", "find/contains", "count"};
 struct SModel { std::multiset<long> s; bool multi;
@@ -43,10 +45,19 @@ template <class C, bool MULTI, bool ORDERED> void run() {
     for (const char* p = vf_param("prekeys", ""); *p;) { long k = strtol(p, (char**)&p, 10); do_insert(c, (int)k, 0, ismap()); m.s.insert(k); while (*p == ',') p++; }
     std::multiset<long> initial = m.s;
     std::vector<std::string> progs(1); for (const char* p = vf_param("prog", "I7|I7|T"); *p; p++) { if (*p == '|') progs.emplace_back(); else progs.back() += *p; }
+    // H<k>: insert(node_type&&) of a node that was extracted, before the window, from another container of the same type in which it was
+    // followed by further nodes (an equivalent key for multi containers, k+1 and k+2 otherwise): an extracted node must not carry links
+    // of its old container into the new one
+    static C* src; src = new C(); std::vector<typename C::node_type> handles; std::vector<std::vector<int>> hidx(progs.size());
+    for (size_t t = 0; t < progs.size(); t++) for (const char* p = progs[t].c_str(); *p;) { if (*p == ',') { p++; continue; } char ch = *p++; int k = (int)strtol(p, (char**)&p, 10);
+        if (ch == 'H') { do_insert(*src, k, 90, ismap()); if (MULTI) do_insert(*src, k, 91, ismap()); do_insert(*src, k + 1, 92, ismap()); do_insert(*src, k + 2, 93, ismap());
+            auto nh = src->unsafe_extract(src->find(k)); if (nh.empty()) vf_fail("setup: extract failed"); hidx[t].push_back((int)handles.size()); handles.push_back(std::move(nh)); } }
+    std::vector<size_t> hpos(progs.size(), 0);
     vf_liveness(1);
     auto ids = gated((int)progs.size(), nullptr, [&](int t) {
         for (const char* p = progs[t].c_str(); *p;) { if (*p == ',') { p++; continue; } char ch = *p++; int k = (int)strtol(p, (char**)&p, 10); int id;
             switch (ch) {
+            case 'H': { id = log.begin(K_INS, k); auto& nh = handles[hidx[t][hpos[t]++]]; bool ok = succ_nh(c.insert(std::move(nh))); log.end(id, ok); } break;
             case 'I': id = log.begin(K_INS, k); log.end(id, do_insert(c, k, t + 1, ismap())); break;
             case 'M': id = log.begin(K_INS, k); log.end(id, do_emplace(c, k, t + 1, ismap())); break;
             case 'F': { id = log.begin(K_FIND, k); auto it = c.find(k); bool f = it != c.end(); if (f && keyof(it, ismap()) != k) vf_fail("find(%d) returned an element with key %d", k, keyof(it, ismap())); log.end(id, f); } break;
@@ -71,7 +82,19 @@ template <class C, bool MULTI, bool ORDERED> void run() {
     std::multiset<long> expect = initial; for (auto& o : log.ops) if (o.kind == K_INS && o.res) expect.insert(o.arg);
     if (fin != expect) { std::string a, b; for (long k : fin) a += std::to_string(k) + ","; for (long k : expect) b += std::to_string(k) + ","; vf_fail("final contents {%s} differ from the union of successful inserts {%s}", a.c_str(), b.c_str()); }
     if (c.size() != fin.size()) vf_fail("size() %zu != %zu elements", c.size(), fin.size());
+    for (long k : std::set<long>(expect.begin(), expect.end())) { auto er = c.equal_range((int)k); size_t n = 0; for (auto it = er.first; it != er.second; ++it) { if (keyof(it, ismap()) != k) vf_fail("equal_range(%ld) contains key %d", k, keyof(it, ismap())); if (++n > fin.size()) vf_fail("equal_range(%ld) does not terminate inside the container", k); }
+        if (n != expect.count(k)) vf_fail("equal_range(%ld) holds %zu elements, %zu were inserted", k, n, expect.count(k)); }
     for (long k : std::set<long>(expect.begin(), expect.end())) { int id = log.begin(K_COUNT, k); log.end(id, (long)c.count((int)k)); id = log.begin(K_FIND, k); log.end(id, c.find((int)k) != c.end()); }
+    // count() of a multi container is distance(equal_range(k)): the end of the range is fixed first and the elements are counted
+    // afterwards, so an insert of ANOTHER key that lands behind the range while it is being counted is counted as well.  The property
+    // does not promise an atomic count, so a count that overlaps inserts of other keys is only checked against bounds
+    // (present-before <= result <= may-exist + overlapping inserts of other keys); every other count is checked exactly.
+    if (MULTI) for (auto& c0 : log.ops) if (c0.kind == K_COUNT && c0.done) {
+        long slack = 0, must = (long)initial.count(c0.arg), may = must;
+        for (auto& o : log.ops) if (o.kind == K_INS) { bool overlaps = o.t0 < c0.t1 && (!o.done || o.t1 > c0.t0);
+            if (o.arg != c0.arg) { if (overlaps) slack++; continue; }
+            if (o.done && o.res && o.t1 < c0.t0) must++; if (o.t0 < c0.t1 && (!o.done || o.res)) may++; }
+        if (slack > 0) { if (c0.res < must || c0.res > may + slack) vf_fail("count(%ld) returned %ld while between %ld and %ld such elements existed (plus %ld concurrent inserts of other keys)", c0.arg, c0.res, must, may, slack); c0.done = false; } }
     if (!linearizable(log.ops, m)) vf_fail("history is not linearizable to a %sset of keys: %s", MULTI ? "multi" : "", log.str(NAMES).c_str());
     for (auto& o : log.ops) vf_outcome("%c%ld ", "ifc"[o.kind], o.res); for (auto& tr : travs) vf_outcome("T%zu ", tr.keys.size());
 }
